@@ -67,7 +67,7 @@ CHECKS = {
    note="Counter.most_common/values assumed; A-FP, A-REAL; parse/OMEN/savers trusted inside run_trainer; determinism only bounded"),
  'C07': dict(level='other', technique=TECH + "; character table by exhaustive enumeration; encoding frame on the AST",
    text="check_valid accepts only passwords that stay on one line (no TAB, C0, nor any code point at which splitlines/codecs break, set recomputed each run); writer format; "
-        "guesser reader returns every value unchanged, grouping equal probabilities (sorted file => strictly decreasing groups); the guesser's OMEN loader (_load_ngrams for IP.level and CP.level) returns every n-gram with only its line terminator removed, grouped by level and prefix in file order; every ruleset reader/writer names its encoding. "
+        "guesser reader returns every value unchanged, grouping equal probabilities (sorted file => strictly decreasing groups); the guesser's OMEN loader (_load_ngrams for IP.level and CP.level) returns every n-gram with only its line terminator removed, grouped by level and prefix in file order; the scorer's _load_from_file and _load_omen map every listed value / n-gram to the number on its line; every ruleset reader/writer names its encoding. "
         "Bounded: value-by-value round trip in utf-8 and cp1251 through guesser, scorer and OMEN loaders.",
    note="A-CODEC; rstrip/split/float(repr)/int identities validated only by the bounded round trip; the scorer's loaders and the EP / LN / config readers are not under contract"),
  'C19': dict(level='other', technique=TECH + "; string builtins uninterpreted; equivalence of textual forms by bounded stand-in",
